@@ -43,13 +43,19 @@ type lateObs struct {
 }
 
 type child struct {
-	h     *wire.Host
-	links map[int]*wire.Link
-	mu    sync.Mutex
-	sig   chan struct{}
-	em    []*emit // emitted frames not yet classified
-	scan  int     // Wait cursor into em
-	injG  int64   // goroutine currently inside Inject (0 = none)
+	h      *wire.Host
+	links  map[int]*wire.Link
+	mu     sync.Mutex
+	sig    chan struct{}
+	em     []*emit // emitted frames not yet classified
+	scan   int     // Wait cursor into em
+	injG   int64   // the delivery goroutine while it is inside the stack (0 = not)
+	dispG  int64
+	jobs   chan job
+	wedged bool // the delivery goroutine did not come back from the stack
+
+	unread tcpip.Endpoint      // UDP socket on udpUnread
+	sinks  chan tcpip.Endpoint // connections accepted on sinkPort
 
 	slot    int            // cases executed by this child
 	owner   map[int][2]int // tag port -> (case id, slot)
@@ -66,22 +72,51 @@ type child struct {
 	accepts int64
 }
 
+// Inject hands a packet to the ONE delivery goroutine (like a real link's
+// dispatch loop: all packets enter in order on the same goroutine) and waits
+// for it.  If the stack does not return within the deadline the delivery
+// goroutine is wedged: every later injection fails fast and the barrier
+// reports it, so the parent sees unanswered probes, not a hung child.
+type job struct {
+	nic, proto int
+	parts      [][]byte
+	done       chan struct{}
+}
+
+func (c *child) dispatch() {
+	g := goid()
+	c.mu.Lock()
+	c.dispG = g
+	c.mu.Unlock()
+	for j := range c.jobs {
+		if l := c.links[j.nic]; l != nil {
+			c.mu.Lock()
+			c.injG = g
+			c.mu.Unlock()
+			if len(j.parts) == 1 {
+				l.Inject(tcpip.NetworkProtocolNumber(j.proto), j.parts[0], rmacFor(j.nic))
+			} else {
+				l.InjectViews(tcpip.NetworkProtocolNumber(j.proto), j.parts, rmacFor(j.nic))
+			}
+			c.mu.Lock()
+			c.injG = 0
+			c.mu.Unlock()
+		}
+		close(j.done)
+	}
+}
+
 func (c *child) Inject(nic int, proto int, parts [][]byte) {
-	l := c.links[nic]
-	if l == nil {
+	if c.wedged {
 		return
 	}
-	c.mu.Lock()
-	c.injG = goid()
-	c.mu.Unlock()
-	if len(parts) == 1 {
-		l.Inject(tcpip.NetworkProtocolNumber(proto), parts[0], rmacFor(nic))
-	} else {
-		l.InjectViews(tcpip.NetworkProtocolNumber(proto), parts, rmacFor(nic))
+	j := job{nic: nic, proto: proto, parts: parts, done: make(chan struct{})}
+	c.jobs <- j
+	select {
+	case <-j.done:
+	case <-time.After(c.wait):
+		c.wedged = true
 	}
-	c.mu.Lock()
-	c.injG = 0
-	c.mu.Unlock()
 }
 
 func (c *child) tap(nic int) func(l *wire.Link, f wire.Frame) {
@@ -138,7 +173,8 @@ func (c *child) find(m func(*emit) bool) *emit {
 
 func newChild() *child {
 	c := &child{links: map[int]*wire.Link{}, sig: make(chan struct{}, 1), owner: map[int][2]int{}, ownerI: map[int][2]int{},
-		udp: map[int]tcpip.Endpoint{}, wait: 20 * time.Second, curID: -1}
+		udp: map[int]tcpip.Endpoint{}, wait: 20 * time.Second, curID: -1, jobs: make(chan job, 16), sinks: make(chan tcpip.Endpoint, 64)}
+	go c.dispatch()
 	clock := wire.NewClock()
 	c.h = wire.NewHost(clock, "c", []wire.NICSpec{
 		{ID: 1, MTU: 1500, Addr4: []string{"10.0.0.1"}, Addr6: []string{"fd00::1"}},
@@ -188,6 +224,43 @@ func newChild() *child {
 			vh.Fatal("listen: %v", err)
 		}
 		go c.acceptLoop(lep, lq)
+	}
+	// queue-pressure targets: a UDP socket read only on demand, a listener whose connections are not read
+	{
+		ep, err := c.h.S.NewEndpoint(udp.ProtocolNumber, tcpip.NetworkProtocolNumber(0x0800), &waiter.Queue{})
+		if err != nil {
+			vh.Fatal("udp endpoint: %v", err)
+		}
+		if err := ep.Bind(tcpip.FullAddress{Port: udpUnread}, nil); err != nil {
+			vh.Fatal("udp bind: %v", err)
+		}
+		c.unread = ep
+		lq := &waiter.Queue{}
+		lep, err := c.h.S.NewEndpoint(tcp.ProtocolNumber, tcpip.NetworkProtocolNumber(0x0800), lq)
+		if err != nil {
+			vh.Fatal("tcp endpoint: %v", err)
+		}
+		if err := lep.Bind(tcpip.FullAddress{Port: sinkPort}, nil); err != nil {
+			vh.Fatal("tcp bind: %v", err)
+		}
+		if err := lep.Listen(16); err != nil {
+			vh.Fatal("listen: %v", err)
+		}
+		go func() {
+			we, ch := waiter.NewChannelEntry(nil)
+			lq.EventRegister(&we, waiter.EventIn)
+			for {
+				ep, _, err := lep.Accept()
+				if err == tcpip.ErrWouldBlock {
+					<-ch
+					continue
+				}
+				if err != nil {
+					return
+				}
+				c.sinks <- ep
+			}
+		}()
 	}
 	return c
 }
@@ -247,6 +320,9 @@ func echoLoop(ep tcpip.Endpoint, wq *waiter.Queue) {
 func (c *child) barrier() error {
 	// one echo replier goroutine per IPv4 endpoint (address): flush both
 	for _, nic := range []int{1, 2} {
+		if c.wedged {
+			return fmt.Errorf("the delivery goroutine did not return from the stack within %v (wedged)", c.wait)
+		}
 		c.bseq = (c.bseq + 1) & 0xffff
 		seq := c.bseq
 		msg := wire.BuildICMPv4Echo(8, barrierID, uint16(seq), nil)
@@ -445,6 +521,13 @@ func (c *child) runCase(cs *Case, wantHex, dry bool) M {
 		}
 	case "tseq":
 		c.runTSeq(cs, slot, send, dry)
+	case "press":
+		if !dry {
+			if err := c.runPress(cs, slot, obs); err != nil {
+				res["err"] = err.Error()
+				return res
+			}
+		}
 	default:
 		vh.Fatal("unknown case kind %v", cs.C["k"])
 	}
@@ -787,4 +870,155 @@ func serve() {
 			os.Exit(0)
 		}
 	}
+}
+
+// ------------------------------------------------------------ queue pressure
+// readQueued lets the application read what is queued in a UDP/TCP endpoint
+// (at most max reads); the read runs beside a deadline because a leaked
+// lock would make it block for ever.
+func (c *child) readQueued(ep tcpip.Endpoint, max int) (n int, bytesRead int, first []byte, err error) {
+	type r struct {
+		n, b  int
+		first []byte
+	}
+	if c.wedged {
+		return 0, 0, nil, fmt.Errorf("the delivery goroutine did not return from the stack within %v (wedged)", c.wait)
+	}
+	ch := make(chan r, 1)
+	go func() {
+		var x r
+		for x.n < max {
+			v, _, e := ep.Read(nil)
+			if e != nil {
+				break
+			}
+			if x.n == 0 {
+				x.first = append([]byte{}, v...)
+			}
+			x.n++
+			x.b += len(v)
+		}
+		ch <- x
+	}()
+	select {
+	case x := <-ch:
+		return x.n, x.b, x.first, nil
+	case <-time.After(c.wait):
+		return 0, 0, nil, fmt.Errorf("the application's Read on the socket did not return within %v", c.wait)
+	}
+}
+
+// runPress builds up state in one bounded queue of the stack with MANY
+// well-formed frames, then lets the application use the queue.
+func (c *child) runPress(cs *Case, slot int, obs map[string]bool) error {
+	peer, own, _ := addrs(4, 1)
+	sport := uint16(tagPort(slot))
+	dgram := func(i, n int) []byte {
+		return wire.BuildUDP(peer, own, sport, udpUnread, wire.Pattern(slot*10007+i, n), wire.UDPOpts{})
+	}
+	udp := func(i, n int) {
+		c.Inject(1, 0x0800, [][]byte{ipWrap(4, 1, 17, dgram(i, n), i)})
+	}
+	// afterwards: one more datagram must get through and be readable
+	udpCheck := func(firstWant []byte, minN int) error {
+		n, _, first, err := c.readQueued(c.unread, 1<<20)
+		if err != nil {
+			return err
+		}
+		udp(9999, 100)
+		n2, _, f2, err := c.readQueued(c.unread, 4)
+		if err != nil {
+			return err
+		}
+		if n >= minN && bytes.Equal(first, firstWant) && n2 == 1 && bytes.Equal(f2, wire.Pattern(slot*10007+9999, 100)) {
+			obs["udpq"] = true
+		}
+		return nil
+	}
+	switch q := gs(cs.C, "q"); q {
+	case "udp-unread": // 40 x 1400 bytes into a socket nobody reads (receive buffer: 32 KiB)
+		for i := 0; i < 40; i++ {
+			udp(i, 1400)
+		}
+		return udpCheck(wire.Pattern(slot*10007, 1400), 20)
+	case "udp-late": // the reader comes late, twice
+		for i := 0; i < 30; i++ {
+			udp(i, 1400)
+		}
+		n, _, first, err := c.readQueued(c.unread, 10)
+		if err != nil {
+			return err
+		}
+		for i := 30; i < 60; i++ {
+			udp(i, 1400)
+		}
+		if n != 10 || !bytes.Equal(first, wire.Pattern(slot*10007, 1400)) {
+			return nil
+		}
+		return udpCheck(wire.Pattern(slot*10007+10, 1400), 13)
+	case "udp-small": // many small datagrams
+		for i := 0; i < 3000; i++ {
+			udp(i, 12)
+		}
+		return udpCheck(wire.Pattern(slot*10007, 12), 2000)
+	case "udp-frag": // fragmented datagrams
+		for i := 0; i < 30; i++ {
+			d := dgram(i, 2792)
+			for _, cut := range [][2]int{{0, 1400}, {1400, 2800}} {
+				p := wire.BuildIPv4(peer, own, 17, d[cut[0]:cut[1]], wire.IPv4Opts{ID: uint16(1000 + i), MF: cut[0] == 0, FragOff: cut[0]})
+				c.Inject(1, 0x0800, [][]byte{p})
+			}
+		}
+		return udpCheck(wire.Pattern(slot*10007, 2792), 10)
+	case "syn-backlog": // more half-open connections than the SYN-RCVD threshold, left open
+		for i := 0; i < 1200; i++ {
+			k := &conn{v: 4, nic: 1, sport: 20000 + i, dport: lstPort}
+			c.Inject(1, 0x0800, [][]byte{k.seg(wire.SYN, uint32(77000+i), 0, wire.OptMSS(1400), nil)})
+		}
+	case "tcp-rcvbuf": // an established connection whose application does not read: more data than the receive buffer
+		k, err := handshakeTo(c, 4, 1, int(sport), sinkPort, uint32(0x03000000+slot*4099), c.wait)
+		if err != nil {
+			return fmt.Errorf("handshake: %v", err)
+		}
+		var ep tcpip.Endpoint
+		select {
+		case ep = <-c.sinks:
+		case <-time.After(c.wait):
+			return fmt.Errorf("connection to the sink listener was not accepted within %v", c.wait)
+		}
+		for i := 0; i < 200; i++ {
+			c.Inject(1, 0x0800, [][]byte{k.seg(wire.ACK, k.snd, k.rcv, nil, wire.Pattern(slot*10007+i, 1400))})
+			k.snd += 1400
+		}
+		_, b, first, err := c.readQueued(ep, 1<<20)
+		if err != nil {
+			return err
+		}
+		want := wire.Pattern(slot*10007, 1400)
+		if b >= 1400 && len(first) > 0 && bytes.Equal(first, want[:len(first)]) {
+			obs["tcpq"] = true
+		}
+		c.Inject(1, 0x0800, [][]byte{k.seg(wire.RST, k.snd, 0, nil, nil)})
+		ep.Close()
+	case "frag-mem": // more incomplete datagrams than the reassembly memory limit
+		for i := 0; i < 3100; i++ {
+			p := wire.BuildIPv4(peer, own, 17, wire.Pattern(i, 1400), wire.IPv4Opts{ID: uint16(2000 + i), MF: true})
+			c.Inject(1, 0x0800, [][]byte{p})
+		}
+	case "neigh": // more neighbours than the link address cache holds
+		_, own2, _ := addrs(4, 2)
+		_, own6, _ := addrs(6, 2)
+		for i := 0; i < 600; i++ {
+			mac := []byte{2, 0, 0, 1, byte(i >> 8), byte(i)}
+			spa := []byte{10, 0, byte(2 + i>>8), byte(i)}
+			c.Inject(2, 0x0806, [][]byte{wire.BuildARP(1, mac, spa, make([]byte, 6), own2)})
+			src6 := append(append([]byte{}, ip6("fd01::")[:14]...), byte(0x10+i>>8), byte(i))
+			body := append(append([]byte{}, src6...), 2, 1, mac[0], mac[1], mac[2], mac[3], mac[4], mac[5])
+			na := wire.BuildICMPv6(src6, own6, 136, 0, [4]byte{0x60, 0, 0, 0}, body)
+			c.Inject(2, 0x86dd, [][]byte{wire.BuildIPv6(src6, own6, 58, na, 255)})
+		}
+	default:
+		vh.Fatal("pressure family %q", q)
+	}
+	return nil
 }
